@@ -21,7 +21,7 @@ type RLog struct {
 	Fault   string // "", "err", "panic"
 	Start   int64
 	End     int64
-	ArgIDIn string // put: ID of the argument as given
+	ArgIDIn string    // put: ID of the argument as given
 	VTime   time.Time // time.Now() at the start of the call (virtual inside a synctest bubble)
 }
 
